@@ -78,7 +78,8 @@ the `i32` range before and after the move, where `points()` does not saturate). 
 theorem pixelsList_translate (s : Style) (r : Rect) (d : Pt)
     (h : (strokeArea s r).InRange) (h' : (strokeArea s (r.translate d)).InRange) :
     pixelsList s (r.translate d) = Writes.translate d (pixelsList s r) := by
-  unfold pixelsList Writes.translate
+  rw [pixelsList_eq_spec, pixelsList_eq_spec]
+  unfold pixelsSpec Writes.translate
   rw [strokeArea_translate] at h' ⊢
   by_cases ht : s.isTransparent = true
   · simp [ht]
